@@ -1,47 +1,245 @@
-From Coq Require Import List ZArith NArith Bool Lia.
+From Coq Require Import List ZArith NArith Bool Lia Permutation.
 From XV Require Import Lib.Sx Model.Recv.
+From XV Require Model.Send Proofs.SendP.
 Import ListNotations.
 Open Scope N_scope.
 
-Lemma crecv_routed items : forall inb nw wf,
-  routed (crecv inb nw wf items) = processed nw wf items.
+(* ---- what "processed" means: the computed list is THE list with the declarative property ---- *)
+Lemma processed_is_prefix items : is_processed_prefix items (processed items).
 Proof.
-  induction items as [|i items IH]; intros inb nw wf; [reflexivity|].
-  destruct i; cbn [crecv processed]; try reflexivity.
-  - cbn. rewrite IH. reflexivity.
-  - destruct (match wf with Some k => Nat.eqb k (S nw) | None => false end); cbn; rewrite IH; reflexivity.
-  - cbn. rewrite IH. reflexivity.
-  - cbn. rewrite IH. reflexivity.
-  - cbn. rewrite IH. reflexivity.
+  induction items as [|i items IH].
+  - exists []. split; [reflexivity|]. split; [intros i []|left; reflexivity].
+  - cbn [processed]. destruct (stops i) eqn:Hs.
+    + exists (i :: items). split; [reflexivity|]. split; [intros j []|].
+      right. exists i, items. split; [reflexivity|exact Hs].
+    + destruct IH as (rest & Hit & Hin & Hend).
+      exists rest. split; [cbn; rewrite <- Hit; reflexivity|]. split; [|exact Hend].
+      intros j [<-|Hj]; [exact Hs|apply Hin, Hj].
 Qed.
 
-Lemma crecv_stanzas_once items inb nw wf :
-  filter is_stanza (routed (crecv inb nw wf items)) = filter is_stanza (processed nw wf items).
-Proof. rewrite crecv_routed. reflexivity. Qed.
-
-Lemma crecv_answers items : forall inb nw wf,
-  attempted (crecv inb nw wf items) = expected_answers inb (processed nw wf items).
+Lemma processed_unique items : forall p, is_processed_prefix items p -> p = processed items.
 Proof.
-  induction items as [|i items IH]; intros inb nw wf; [reflexivity|].
-  destruct i; cbn [crecv processed]; try reflexivity.
-  - cbn. rewrite IH. reflexivity.
-  - destruct (match wf with Some k => Nat.eqb k (S nw) | None => false end); cbn; rewrite IH; reflexivity.
-  - cbn. rewrite IH. reflexivity.
-  - cbn. rewrite IH. reflexivity.
-  - cbn. rewrite IH. reflexivity.
+  induction items as [|i items IH]; intros p (rest & Hit & Hin & Hend).
+  - destruct p; [reflexivity|discriminate].
+  - destruct p as [|j p].
+    + cbn in Hit. subst rest. cbn [processed].
+      destruct Hend as [Hend|(x & r & Hx & Hs)]; [discriminate|].
+      inversion Hx; subst. rewrite Hs. reflexivity.
+    + cbn in Hit. injection Hit as Hj Hrest. subst j. cbn [processed].
+      rewrite (Hin i (or_introl eq_refl)). f_equal. apply IH.
+      exists rest. split; [exact Hrest|]. split; [|exact Hend].
+      intros x Hx. apply Hin. right. exact Hx.
 Qed.
 
-(* when no write fails every attempted answer is a written one *)
-Lemma crecv_answers_written items : forall inb nw,
-  answers (crecv inb nw None items) = attempted (crecv inb nw None items).
+(* when nothing stops the loop everything is processed *)
+Lemma processed_all items : reaches_end items = true -> processed items = items.
 Proof.
-  induction items as [|i items IH]; intros inb nw; [reflexivity|].
-  destruct i; cbn [crecv]; try reflexivity; cbn; rewrite ?IH; reflexivity.
+  unfold reaches_end. induction items as [|i items IH]; intros H; [reflexivity|].
+  cbn [forallb] in H. apply andb_true_iff in H as [H1 H]. apply negb_true_iff in H1.
+  cbn [processed]. rewrite H1, (IH H). reflexivity.
+Qed.
+
+(* ---- the trace with any ending: generic facts ---- *)
+Definition quit_of (stopped : bool) : list action := if stopped then [] else [AQuit].
+
+(* the observables are sums over the trace *)
+Lemma routed_app a b : routed (a ++ b) = routed a ++ routed b.
+Proof. apply flat_map_app. Qed.
+Lemma ra_cons a tr :
+  routed_async (a :: tr) = (match a with ARouteAsync i => [i] | _ => [] end) ++ routed_async tr.
+Proof. reflexivity. Qed.
+Lemma rs_cons a tr :
+  routed_sync (a :: tr) = (match a with ARouteSync i => [i] | _ => [] end) ++ routed_sync tr.
+Proof. reflexivity. Qed.
+Lemma count_act_cons p a l : count_act p (a :: l) = ((if p a then 1 else 0) + count_act p l)%nat.
+Proof. unfold count_act. cbn [filter]. destruct (p a); reflexivity. Qed.
+Lemma count_act_app p a b : count_act p (a ++ b) = (count_act p a + count_act p b)%nat.
+Proof. unfold count_act. rewrite filter_app, app_length. reflexivity. Qed.
+Lemma cs_cons i l : count_stanzas (i :: l) = (if is_stanza i then 1 else 0) + count_stanzas l.
+Proof. unfold count_stanzas. cbn [filter]. destruct (is_stanza i); cbn [length]; lia. Qed.
+Lemma cs_nil : count_stanzas [] = 0.
+Proof. reflexivity. Qed.
+
+(* ---- routing (C05) ---- *)
+(* [fin] contributes only when the loop comes to the end of the items *)
+Lemma crecv_k_routed fin items : forall stopped inb nw wf,
+  (forall s n, routed (fin s n) = routed (fin false 0)) ->
+  routed (crecv_k fin stopped inb nw wf items)
+  = processed items ++ (if reaches_end items then routed (fin false 0) else []).
+Proof.
+  intros stopped inb nw wf Hfin. revert stopped inb nw wf. unfold reaches_end.
+  induction items as [|i items IH]; intros stopped inb nw wf; [cbn; apply Hfin|].
+  destruct i; cbn [crecv_k processed stops forallb negb andb]; try (destruct stopped; reflexivity);
+    try (cbn; rewrite IH; reflexivity).
+  - destruct (wf (S nw)); cbn; rewrite IH; reflexivity.
+  - destruct stopped; cbn; rewrite IH; reflexivity.
+Qed.
+Lemma crecv_from_routed items stopped inb nw wf :
+  routed (crecv_from stopped inb nw wf items) = processed items.
+Proof.
+  unfold crecv_from. rewrite crecv_k_routed; [|intros s n; destruct s; reflexivity].
+  destruct (reaches_end items); apply app_nil_r.
+Qed.
+Lemma crecv_routed items inb nw wf : routed (crecv inb nw wf items) = processed items.
+Proof. apply crecv_from_routed. Qed.
+Lemma crecv_handover_routed t items inb nw wf :
+  routed (crecv_handover t inb nw wf items)
+  = processed items ++ (if reaches_end items then [IStreamError t] else []).
+Proof.
+  unfold crecv_handover. rewrite crecv_k_routed; [reflexivity|intros s n; destruct s; reflexivity].
+Qed.
+
+(* which of them on the receive goroutine itself, which in goroutines of their own *)
+Lemma crecv_k_async fin items : forall stopped inb nw wf,
+  (forall s n, routed_async (fin s n) = []) ->
+  (forall s n, routed_sync (fin s n) = routed_sync (fin false 0)) ->
+  routed_async (crecv_k fin stopped inb nw wf items) = filter (fun i => negb (is_serr i)) (processed items) /\
+  routed_sync (crecv_k fin stopped inb nw wf items)
+  = filter is_serr (processed items) ++ (if reaches_end items then routed_sync (fin false 0) else []).
+Proof.
+  intros stopped inb nw wf Hf1 Hf2. revert stopped inb nw wf. unfold reaches_end.
+  induction items as [|i items IH]; intros stopped inb nw wf; [cbn; split; [apply Hf1|apply Hf2]|].
+  destruct i; cbn [crecv_k processed stops forallb negb andb]; try (destruct stopped; split; reflexivity).
+  - destruct (IH stopped (inb + 1) nw wf) as [H1 H2]. rewrite !ra_cons, !rs_cons, H1, H2. split; reflexivity.
+  - destruct (IH stopped inb (S nw) wf) as [H1 H2].
+    destruct (wf (S nw)); rewrite !ra_cons, !rs_cons, H1, H2; split; reflexivity.
+  - destruct (IH stopped inb nw wf) as [H1 H2]. rewrite !ra_cons, !rs_cons, H1, H2. split; reflexivity.
+  - destruct (IH stopped inb nw wf) as [H1 H2]. rewrite !ra_cons, !rs_cons, H1, H2. split; reflexivity.
+  - destruct (IH true inb nw wf) as [H1 H2].
+    destruct stopped; cbn [app]; rewrite !ra_cons, !rs_cons, H1, H2; split; reflexivity.
+Qed.
+Lemma crecv_async items inb nw wf :
+  routed_async (crecv inb nw wf items) = filter (fun i => negb (is_serr i)) (processed items) /\
+  routed_sync (crecv inb nw wf items) = filter is_serr (processed items).
+Proof.
+  destruct (crecv_k_async report_loss items false inb nw wf) as [H1 H2];
+    try (intros s n; destruct s; reflexivity).
+  split; [exact H1|]. unfold crecv, crecv_from. rewrite H2. destruct (reaches_end items); apply app_nil_r.
+Qed.
+Lemma crecv_handover_async t items inb nw wf :
+  routed_async (crecv_handover t inb nw wf items) = filter (fun i => negb (is_serr i)) (processed items) /\
+  routed_sync (crecv_handover t inb nw wf items)
+  = filter is_serr (processed items) ++ (if reaches_end items then [IStreamError t] else []).
+Proof.
+  apply (crecv_k_async (hand_over t) items false inb nw wf); intros s n; destruct s; reflexivity.
+Qed.
+
+Lemma in_routed_sync tr i : In (ARouteSync i) tr -> In i (routed_sync tr).
+Proof.
+  induction tr as [|a tr IH]; intros H; [contradiction|].
+  destruct H as [->|H]; [left; reflexivity|].
+  unfold routed_sync. cbn [flat_map]. apply in_or_app. right. apply IH, H.
+Qed.
+Lemma crecv_sync_only_serr items inb nw wf i :
+  In (ARouteSync i) (crecv inb nw wf items) -> is_serr i = true /\ In i (processed items).
+Proof.
+  intros H. apply in_routed_sync in H. rewrite (proj2 (crecv_async items inb nw wf)) in H.
+  apply filter_In in H as [H1 H2]. split; assumption.
+Qed.
+
+(* the handlers of the asynchronously routed elements run in goroutines of their own, one per element: whatever
+   order the scheduler runs them in (every merge of the one-element programs), each element is handled
+   exactly once *)
+Lemma concat_singletons {A} (l : list A) : concat (map (fun x => [x]) l) = l.
+Proof. induction l as [|x l IH]; [reflexivity|]. cbn. rewrite IH. reflexivity. Qed.
+Lemma crecv_any_schedule items inb nw wf w :
+  Send.interleavings (map (fun i => [i]) (routed_async (crecv inb nw wf items))) w ->
+  Permutation w (filter (fun i => negb (is_serr i)) (processed items)).
+Proof.
+  intros H. apply SendP.interleavings_perm in H. rewrite concat_singletons in H.
+  rewrite (proj1 (crecv_async items inb nw wf)) in H. exact H.
+Qed.
+
+(* ---- answers (C05, C09) ---- *)
+Lemma crecv_k_answers fin items : forall stopped inb nw wf,
+  (forall s n, attempted (fin s n) = []) ->
+  attempted (crecv_k fin stopped inb nw wf items) = expected_answers inb (processed items).
+Proof.
+  intros stopped inb nw wf Hfin. revert stopped inb nw wf.
+  induction items as [|i items IH]; intros stopped inb nw wf; [cbn; apply Hfin|].
+  destruct i; cbn [crecv_k processed stops]; try (destruct stopped; reflexivity);
+    try (cbn; rewrite IH; reflexivity).
+  - destruct (wf (S nw)); cbn; rewrite IH; reflexivity.
+  - destruct stopped; cbn; rewrite IH; reflexivity.
+Qed.
+Lemma crecv_answers items inb nw wf :
+  attempted (crecv inb nw wf items) = expected_answers inb (processed items).
+Proof. apply crecv_k_answers. intros s n; destruct s; reflexivity. Qed.
+Lemma crecv_handover_answers t items inb nw wf :
+  attempted (crecv_handover t inb nw wf items) = expected_answers inb (processed items).
+Proof. apply crecv_k_answers. intros s n; destruct s; reflexivity. Qed.
+
+Lemma expected_answers_length l : forall inb,
+  length (expected_answers inb l) = length (filter is_r l).
+Proof.
+  induction l as [|i l IH]; intros inb; [reflexivity|].
+  destruct i; cbn [expected_answers filter is_r length]; rewrite ?IH; reflexivity.
+Qed.
+
+(* which of the attempted answers the transport took: those whose write number the fault oracle spares *)
+Lemma written_cons wf first h att :
+  written wf first (h :: att) = (if wf first then [] else [h]) ++ written wf (S first) att.
+Proof. unfold written. cbn. destruct (wf first); reflexivity. Qed.
+
+Lemma crecv_k_written fin items : forall stopped inb nw wf,
+  (forall s n, attempted (fin s n) = []) -> (forall s n, answers (fin s n) = []) ->
+  answers (crecv_k fin stopped inb nw wf items)
+  = written wf (S nw) (attempted (crecv_k fin stopped inb nw wf items)).
+Proof.
+  intros stopped inb nw wf Hf1 Hf2. revert stopped inb nw wf.
+  induction items as [|i items IH]; intros stopped inb nw wf; [cbn; rewrite Hf1, Hf2; reflexivity|].
+  destruct i; cbn [crecv_k]; try (destruct stopped; reflexivity).
+  - cbn. apply IH.
+  - destruct (wf (S nw)) eqn:E; cbn [answers attempted flat_map app];
+      fold (answers (crecv_k fin stopped inb (S nw) wf items));
+      fold (attempted (crecv_k fin stopped inb (S nw) wf items));
+      rewrite written_cons, E, IH; reflexivity.
+  - cbn. apply IH.
+  - cbn. apply IH.
+  - destruct stopped; cbn; apply IH.
+Qed.
+Lemma crecv_written items inb nw wf :
+  answers (crecv inb nw wf items) = written wf (S nw) (attempted (crecv inb nw wf items)).
+Proof. apply crecv_k_written; intros s n; destruct s; reflexivity. Qed.
+
+Lemma written_all wf first att : (forall k, wf k = false) -> written wf first att = att.
+Proof.
+  intros H. revert first. induction att as [|h att IH]; intros first; [reflexivity|].
+  rewrite written_cons, H, IH. reflexivity.
+Qed.
+(* every write from the k-th on fails: exactly the first k-1 answers (of those still to come) get through *)
+Lemma written_none k att : forall first, (k <= first)%nat -> written (fault_from k) first att = [].
+Proof.
+  induction att as [|h att IH]; intros first Hle; [reflexivity|].
+  rewrite written_cons. unfold fault_from at 1.
+  destruct (Nat.leb k first) eqn:E; [|apply Nat.leb_gt in E; lia].
+  cbn [app]. apply IH. lia.
+Qed.
+Lemma written_from k att : forall first, (first <= k)%nat ->
+  written (fault_from k) first att = firstn (k - first) att.
+Proof.
+  induction att as [|h att IH]; intros first Hle; [destruct (k - first)%nat; reflexivity|].
+  destruct (Nat.leb k first) eqn:E.
+  - apply Nat.leb_le in E. replace (k - first)%nat with 0%nat by lia. apply written_none. exact E.
+  - rewrite written_cons. unfold fault_from at 1. rewrite E.
+    apply Nat.leb_gt in E. replace (k - first)%nat with (S (k - S first)) by lia.
+    cbn [app firstn]. f_equal. apply IH. lia.
+Qed.
+
+Lemma crecv_acks items inb nw wf :
+  let tr := crecv inb nw wf items in
+  attempted tr = expected_answers inb (processed items) /\
+  length (attempted tr) = length (filter is_r (processed items)) /\
+  answers tr = written wf (S nw) (attempted tr) /\
+  ((forall k, wf k = false) -> answers tr = attempted tr).
+Proof.
+  cbn zeta. rewrite crecv_answers.
+  split; [reflexivity|]. split; [apply expected_answers_length|].
+  rewrite <- crecv_answers with (nw := nw) (wf := wf). split; [apply crecv_written|].
+  intros H. rewrite crecv_written. apply written_all, H.
 Qed.
 
 (* every expected answer is the session's starting count plus the stanzas before the request *)
-Definition is_r (i : item) := match i with ISmR => true | _ => false end.
-
 Lemma expected_answers_spec l : forall inb k h,
   nth_error (expected_answers inb l) k = Some h ->
   exists pre post, l = pre ++ ISmR :: post /\
@@ -68,102 +266,397 @@ Proof.
       split; [reflexivity|]. split; [cbn; lia|]. unfold count_stanzas; cbn [filter is_stanza]. reflexivity.
 Qed.
 
-(* ---- loss reporting (C12) ---- *)
-Definition is_serr (i : item) := match i with IStreamError _ => true | _ => false end.
-
-Lemma last_last_app {A} (l1 l2 : list A) d : l2 <> [] -> last (l1 ++ l2) d = last l2 d.
+(* ---- loss reporting (C12, C09, C18) ---- *)
+(* how often the quit channel is closed, the loss reported, the error callback run: [fin] counts when
+   the loop comes to the end of the items, the report of the loop itself otherwise *)
+Lemma crecv_k_counts (fin : bool -> N -> list action) (fd fe : nat) items : forall stopped inb nw wf,
+  (forall s n, count_act is_quit (fin s n) = (if s then 0 else 1)%nat) ->
+  (forall s n, count_act is_disc (fin s n) = fd) ->
+  (forall s n, count_act is_err (fin s n) = fe) ->
+  let tr := crecv_k fin stopped inb nw wf items in
+  count_act is_quit tr = (if stopped then 0 else 1)%nat /\
+  count_act is_disc tr = (if reaches_end items then fd else 1)%nat /\
+  count_act is_err tr = ((if reaches_end items then fe else if ends_by_close items then 0 else 1)
+                         + length (filter is_serr (processed items)))%nat.
 Proof.
-  intros H. induction l1 as [|a l1 IH]; [reflexivity|]. cbn [app].
-  destruct (l1 ++ l2) as [|b r] eqn:E; [destruct l1; [contradiction|discriminate]|].
-  change (last (a :: b :: r) d) with (last (b :: r) d). exact IH.
+  intros stopped inb nw wf Hq Hd He. revert stopped inb nw wf. unfold reaches_end, ends_by_close.
+  induction items as [|i items IH]; intros stopped inb nw wf; cbn zeta.
+  { cbn [crecv_k forallb processed filter length]. rewrite Hq, Hd, He. repeat split. lia. }
+  assert (Hgo : forall inb' nw' a,
+            is_quit a = false -> is_disc a = false -> is_err a = false ->
+            let tr := a :: crecv_k fin stopped inb' nw' wf items in
+            count_act is_quit tr = (if stopped then 0 else 1)%nat /\
+            count_act is_disc tr = (if forallb (fun i => negb (stops i)) items then fd else 1)%nat /\
+            count_act is_err tr =
+              ((if forallb (fun i => negb (stops i)) items then fe
+                else if match how_ended items with EndClosed => true | _ => false end then 0 else 1)
+               + length (filter is_serr (processed items)))%nat).
+  { intros inb' nw' a H1 H2 H3. cbn zeta. destruct (IH stopped inb' nw' wf) as (Hq' & Hd' & He').
+    rewrite !count_act_cons, H1, H2, H3, Hq', Hd', He'. repeat split. }
+  destruct i; cbn [crecv_k]; cbn [how_ended processed stops forallb negb andb filter is_serr];
+    try (destruct stopped; repeat split; reflexivity).
+  - apply Hgo; reflexivity.
+  - rewrite count_act_cons, (count_act_cons is_disc), (count_act_cons is_err).
+    replace (is_quit (if wf (S nw) then AWriteFail inb else AWrite inb)) with false by (destruct (wf (S nw)); reflexivity).
+    replace (is_disc (if wf (S nw) then AWriteFail inb else AWrite inb)) with false by (destruct (wf (S nw)); reflexivity).
+    replace (is_err (if wf (S nw) then AWriteFail inb else AWrite inb)) with false by (destruct (wf (S nw)); reflexivity).
+    apply Hgo; reflexivity.
+  - apply Hgo; reflexivity.
+  - apply Hgo; reflexivity.
+  - destruct (IH true inb nw wf) as (Hq' & Hd' & He').
+    destruct stopped; cbn [app]; rewrite !count_act_cons; cbn [is_quit is_disc is_err length];
+      rewrite Hq', Hd', He'; repeat split; lia.
 Qed.
 
-Lemma cs_nil : count_stanzas [] = 0.
-Proof. reflexivity. Qed.
-
-Lemma crecv_loss items : forall inb nw wf,
-  let tr := crecv inb nw wf items in
-  let p := processed nw wf items in
-  let closed := ends_by_close nw wf items in
-  count_act is_quit tr = 1%nat /\
-  (quit_before_disc tr = true /\ quiet_after_quit tr = true) /\
+Lemma crecv_from_counts items stopped inb nw wf :
+  let tr := crecv_from stopped inb nw wf items in
+  count_act is_quit tr = (if stopped then 0 else 1)%nat /\
   count_act is_disc tr = 1%nat /\
-  count_act is_err tr = ((if closed then 0 else 1) + length (filter is_serr p))%nat /\
+  count_act is_err tr = ((if ends_by_close items then 0 else 1) + length (filter is_serr (processed items)))%nat.
+Proof.
+  cbn zeta. unfold crecv_from.
+  destruct (crecv_k_counts report_loss 1 1 items stopped inb nw wf) as (Hq & Hd & He);
+    try (intros s n; destruct s; reflexivity).
+  split; [exact Hq|]. split; [rewrite Hd; destruct (reaches_end items); reflexivity|].
+  rewrite He. destruct (reaches_end items) eqn:E; [|reflexivity].
+  assert (Hc : ends_by_close items = false).
+  { clear -E. unfold reaches_end, ends_by_close in *. induction items as [|i items IH]; [reflexivity|].
+    cbn [forallb] in E. apply andb_true_iff in E as [E1 E]. destruct i; try discriminate; cbn [how_ended]; auto. }
+  rewrite Hc. reflexivity.
+Qed.
+
+(* the count the Disconnected event carries: the starting count plus the stanzas processed, and no other *)
+Lemma crecv_k_disc_value fin items : forall stopped inb nw wf n,
+  (forall s m, In (AEvDisconnected n) (fin s m) -> n = m) ->
+  In (AEvDisconnected n) (crecv_k fin stopped inb nw wf items) ->
+  n = inb + count_stanzas (processed items).
+Proof.
+  intros stopped inb nw wf n Hfin. revert stopped inb nw wf.
+  induction items as [|i items IH]; intros stopped inb nw wf H.
+  - cbn [processed]. rewrite cs_nil, N.add_0_r. apply (Hfin stopped). exact H.
+  - assert (Hterm : forall l, In (AEvDisconnected n) ((if stopped then [] else [AQuit]) ++ l) -> In (AEvDisconnected n) l).
+    { intros l Hl. destruct stopped; [exact Hl|]. destruct Hl as [Hl|Hl]; [discriminate|exact Hl]. }
+    destruct i; cbn [crecv_k] in H; cbn [processed stops]; rewrite ?cs_cons; cbn [is_stanza].
+    + destruct H as [H|H]; [discriminate|]. apply IH in H. lia.
+    + destruct H as [H|H]; [destruct (wf (S nw)); discriminate|].
+      destruct H as [H|H]; [discriminate|]. apply IH in H. lia.
+    + destruct H as [H|H]; [discriminate|]. apply IH in H. lia.
+    + destruct H as [H|H]; [discriminate|]. apply IH in H. lia.
+    + apply Hterm in H. repeat (destruct H as [H|H]; [discriminate|]). apply IH in H. lia.
+    + destruct H as [H|H]; [discriminate|]. apply Hterm in H. rewrite cs_nil.
+      destruct H as [H|[]]. inversion H. lia.
+    + unfold report_loss in H. apply Hterm in H. rewrite cs_nil.
+      destruct H as [H|[H|[]]]; [discriminate|]. inversion H. lia.
+Qed.
+Lemma crecv_from_disc_value items stopped inb nw wf n :
+  In (AEvDisconnected n) (crecv_from stopped inb nw wf items) -> n = inb + count_stanzas (processed items).
+Proof.
+  apply crecv_k_disc_value. intros s m H. unfold report_loss in H.
+  destruct s; cbn in H; repeat (destruct H as [H|H]; try discriminate; try contradiction); inversion H; reflexivity.
+Qed.
+
+(* the Disconnected event with that count is the LAST thing the loop does *)
+Lemma crecv_from_ends_with_disc items : forall stopped inb nw wf,
+  exists pre, crecv_from stopped inb nw wf items = pre ++ [AEvDisconnected (inb + count_stanzas (processed items))].
+Proof.
+  unfold crecv_from. induction items as [|i items IH]; intros stopped inb nw wf.
+  - cbn [processed]. rewrite cs_nil, N.add_0_r. exists ((if stopped then [] else [AQuit]) ++ [AErrCall]).
+    cbn [crecv_k]. unfold report_loss. rewrite <- app_assoc. reflexivity.
+  - destruct i; cbn [crecv_k processed stops]; rewrite ?cs_cons; cbn [is_stanza].
+    + destruct (IH stopped (inb + 1) nw wf) as (pre & ->).
+      exists (ARouteAsync (IStanza k id) :: pre). cbn [app].
+      replace (inb + (1 + count_stanzas (processed items))) with (inb + 1 + count_stanzas (processed items)) by lia.
+      reflexivity.
+    + destruct (IH stopped inb (S nw) wf) as (pre & ->).
+      exists ((if wf (S nw) then AWriteFail inb else AWrite inb) :: ARouteAsync ISmR :: pre). reflexivity.
+    + destruct (IH stopped inb nw wf) as (pre & ->). exists (ARouteAsync (ISmA h) :: pre). reflexivity.
+    + destruct (IH stopped inb nw wf) as (pre & ->). exists (ARouteAsync (INonza tag) :: pre). reflexivity.
+    + destruct (IH true inb nw wf) as (pre & ->).
+      exists ((if stopped then [] else [AQuit]) ++
+              ARouteSync (IStreamError tag) :: AEvStreamError :: AErrCall :: ADisconnectCall :: pre).
+      rewrite <- app_assoc. reflexivity.
+    + rewrite cs_nil, N.add_0_r. exists (ARecvStreamClose :: (if stopped then [] else [AQuit])).
+      cbn [app]. reflexivity.
+    + rewrite cs_nil, N.add_0_r. exists ((if stopped then [] else [AQuit]) ++ [AErrCall]).
+      unfold report_loss. rewrite <- app_assoc. reflexivity.
+Qed.
+
+(* where the quit channel is closed: before the loss is reported, before any application callback *)
+Lemma crecv_k_quit_first fin items : forall inb nw wf,
+  (forall n, quit_before_disc (fin false n) = true /\ quit_before_callbacks (fin false n) = true) ->
+  quit_before_disc (crecv_k fin false inb nw wf items) = true /\
+  quit_before_callbacks (crecv_k fin false inb nw wf items) = true.
+Proof.
+  intros inb nw wf Hfin. revert inb nw wf.
+  induction items as [|i items IH]; intros inb nw wf; [apply Hfin|].
+  destruct i; cbn [crecv_k app]; try (split; reflexivity).
+  - apply (IH (inb + 1) nw wf).
+  - destruct (wf (S nw)); apply (IH inb (S nw) wf).
+  - apply (IH inb nw wf).
+  - apply (IH inb nw wf).
+Qed.
+Lemma crecv_quit_first items inb nw wf :
+  quit_before_disc (crecv inb nw wf items) = true /\ quit_before_callbacks (crecv inb nw wf items) = true.
+Proof. apply crecv_k_quit_first. intros n. split; reflexivity. Qed.
+
+Lemma qbc_spec tr : quit_before_callbacks tr = true ->
+  forall pre a post, tr = pre ++ a :: post -> is_callback a = true -> In AQuit pre.
+Proof.
+  induction tr as [|x tr IH]; intros H pre a post E Ha; [destruct pre; discriminate|].
+  destruct pre as [|y pre].
+  - cbn in E. injection E as -> ->. destruct a; try discriminate; cbn in H; discriminate.
+  - cbn in E. injection E as -> E.
+    destruct (is_quit y) eqn:Hq; [destruct y; try discriminate; left; reflexivity|].
+    right. apply (IH) with (a := a) (post := post); [|exact E|exact Ha].
+    destruct y; try discriminate; cbn in H; try exact H; try (apply andb_true_iff in H as [_ H]; exact H).
+Qed.
+(* in the trace's own terms: whatever application callback the receive goroutine enters, quit was closed before *)
+Lemma crecv_callbacks_after_quit items inb nw wf pre a post :
+  crecv inb nw wf items = pre ++ a :: post -> is_callback a = true -> In AQuit pre.
+Proof. apply qbc_spec. apply crecv_quit_first. Qed.
+
+(* before it: only what a live session does, for exactly the elements received before the first stream
+   error; after it: the first stream error and everything received behind it (still routed, requests still
+   answered), and the reports *)
+Lemma crecv_k_quit_position fin items : forall inb nw wf,
+  (forall s n, routed (fin s n) = routed (fin false 0)) ->
+  (forall n, exists post, fin false n = AQuit :: post /\ count_act is_quit post = 0%nat) ->
+  (forall n, count_act is_quit (fin true n) = 0%nat) ->
+  exists pre post, crecv_k fin false inb nw wf items = pre ++ AQuit :: post /\
+    forallb is_live pre = true /\
+    routed pre = before_serr (processed items) /\
+    routed post = from_serr (processed items)
+                  ++ (if reaches_end items then routed (fin false 0) else []) /\
+    count_act is_quit post = 0%nat.
+Proof.
+  intros inb nw wf Hr Hf Hft. revert inb nw wf. unfold reaches_end.
+  induction items as [|i items IH]; intros inb nw wf.
+  - destruct (Hf inb) as (post & E & Hq). exists [], post. cbn [crecv_k]. rewrite E.
+    split; [reflexivity|]. split; [reflexivity|]. split; [reflexivity|]. split; [|exact Hq].
+    cbn [processed from_serr forallb app]. rewrite <- (Hr false inb), E. reflexivity.
+  - assert (Hgo : forall inb' nw' a (a0 : list action),
+              is_live a = true -> is_serr i = false -> stops i = false ->
+              routed a0 ++ routed [a] = [i] -> forallb is_live a0 = true ->
+              exists pre post, a0 ++ a :: crecv_k fin false inb' nw' wf items = pre ++ AQuit :: post /\
+                forallb is_live pre = true /\ routed pre = before_serr (processed (i :: items)) /\
+                routed post = from_serr (processed (i :: items))
+                              ++ (if forallb (fun j => negb (stops j)) (i :: items) then routed (fin false 0) else []) /\
+                count_act is_quit post = 0%nat).
+    { intros inb' nw' a a0 Ha Hs Hst Hri Hl0.
+      destruct (IH inb' nw' wf) as (pre & post & E & Hl & Hr1 & Hr2 & Hq).
+      exists (a0 ++ a :: pre), post. rewrite E. split; [rewrite <- app_assoc; reflexivity|].
+      cbn [processed forallb]. rewrite Hst. cbn [before_serr from_serr negb andb]. rewrite Hs.
+      split; [rewrite forallb_app; cbn [forallb]; rewrite Hl0, Ha, Hl; reflexivity|].
+      split; [|split; [exact Hr2|exact Hq]].
+      rewrite routed_app. change (a :: pre) with ([a] ++ pre). rewrite routed_app, app_assoc, Hri, Hr1. reflexivity. }
+    destruct i; cbn [crecv_k app].
+    + apply (Hgo (inb + 1) nw (ARouteAsync (IStanza k id)) []); reflexivity.
+    + destruct (wf (S nw)).
+      * apply (Hgo inb (S nw) (ARouteAsync ISmR) [AWriteFail inb]); reflexivity.
+      * apply (Hgo inb (S nw) (ARouteAsync ISmR) [AWrite inb]); reflexivity.
+    + apply (Hgo inb nw (ARouteAsync (ISmA h)) []); reflexivity.
+    + apply (Hgo inb nw (ARouteAsync (INonza tag)) []); reflexivity.
+    + exists [], (ARouteSync (IStreamError tag) :: AEvStreamError :: AErrCall :: ADisconnectCall
+                  :: crecv_k fin true inb nw wf items).
+      split; [reflexivity|]. split; [reflexivity|]. split; [reflexivity|]. split.
+      * cbn [processed stops from_serr is_serr forallb negb andb]. cbn [routed flat_map app].
+        fold (routed (crecv_k fin true inb nw wf items)). rewrite crecv_k_routed; [reflexivity|exact Hr].
+      * rewrite !count_act_cons. cbn [is_quit Nat.add].
+        clear -Hft. revert inb nw. induction items as [|j items IH]; intros inb nw; [apply Hft|].
+        destruct j; cbn [crecv_k app]; rewrite ?count_act_cons; cbn [is_quit Nat.add]; try apply IH; try reflexivity.
+        destruct (wf (S nw)); cbn [is_quit Nat.add]; apply IH.
+    + exists [ARecvStreamClose], [AEvDisconnected inb]. repeat split.
+    + exists [], [AErrCall; AEvDisconnected inb]. repeat split.
+Qed.
+Lemma crecv_quit_position items inb nw wf :
+  exists pre post, crecv inb nw wf items = pre ++ AQuit :: post /\
+    forallb is_live pre = true /\
+    routed pre = before_serr (processed items) /\
+    routed post = from_serr (processed items) /\
+    count_act is_quit post = 0%nat.
+Proof.
+  destruct (crecv_k_quit_position report_loss items inb nw wf) as (pre & post & E & H1 & H2 & H3 & H4).
+  - intros s n; destruct s; reflexivity.
+  - intros n. exists [AErrCall; AEvDisconnected n]. split; reflexivity.
+  - reflexivity.
+  - exists pre, post. split; [exact E|]. split; [exact H1|]. split; [exact H2|]. split; [|exact H4].
+    rewrite H3. destruct (reaches_end items); apply app_nil_r.
+Qed.
+
+(* without a stream error nothing at all is routed or written once quit is closed *)
+Lemma crecv_quiet_without_stream_error items : forall inb nw wf,
+  filter is_serr (processed items) = [] -> quiet_after_quit (crecv inb nw wf items) = true.
+Proof.
+  unfold crecv, crecv_from. induction items as [|i items IH]; intros inb nw wf H; [reflexivity|].
+  destruct i; cbn [crecv_k app]; cbn [processed stops filter is_serr] in H;
+    try reflexivity; try discriminate.
+  - apply (IH (inb + 1) nw wf H).
+  - destruct (wf (S nw)); apply (IH inb (S nw) wf H).
+  - apply (IH inb nw wf H).
+  - apply (IH inb nw wf H).
+Qed.
+
+(* ---- everything about how a session ends, in one statement ---- *)
+Lemma crecv_loss items inb nw wf :
+  let tr := crecv inb nw wf items in
+  let p := processed items in
+  count_act is_quit tr = 1%nat /\
+  (quit_before_disc tr = true /\ quit_before_callbacks tr = true) /\
+  count_act is_disc tr = 1%nat /\
+  count_act is_err tr = ((if ends_by_close items then 0 else 1) + length (filter is_serr p))%nat /\
   In (AEvDisconnected (inb + count_stanzas p)) tr.
 Proof.
-  induction items as [|i items IH]; intros inb nw wf.
-  - cbn -[N.add]. repeat split; try reflexivity. right; right; left. f_equal. lia.
-  - unfold ends_by_close.
-    assert (Hstep : forall inb' nw' (pre : list action) (it : item),
-              (forall a, In a pre -> is_quit a = false /\ is_disc a = false) ->
-              processed nw wf (i :: items) = it :: processed nw' wf items ->
-              inb' + count_stanzas (processed nw' wf items) = inb + count_stanzas (it :: processed nw' wf items) ->
-              crecv inb nw wf (i :: items) = pre ++ crecv inb' nw' wf items ->
-              count_act is_err pre = (if is_serr it then 1 else 0)%nat ->
-              let tr := crecv inb nw wf (i :: items) in
-              let p := processed nw wf (i :: items) in
-              count_act is_quit tr = 1%nat /\ (quit_before_disc tr = true /\ quiet_after_quit tr = true) /\ count_act is_disc tr = 1%nat /\
-              count_act is_err tr =
-                ((if match skipn (length p) (i :: items) with IClose :: _ => true | _ => false end then 0 else 1)
-                 + length (filter is_serr p))%nat /\
-              In (AEvDisconnected (inb + count_stanzas p)) tr).
-    { intros inb' nw' pre it Hpre Hp Hcnt Htr Herr. cbn zeta. rewrite Htr, Hp.
-      specialize (IH inb' nw' wf). cbn zeta in IH. unfold ends_by_close in IH.
-      destruct IH as (Hq & Hl & Hd & He & Hin).
-      assert (Hcq : count_act is_quit pre = 0%nat /\ count_act is_disc pre = 0%nat).
-      { clear -Hpre. unfold count_act. induction pre as [|a pre IHp]; [split; reflexivity|].
-        destruct (Hpre a (or_introl eq_refl)) as [H1 H2]. cbn [filter]. rewrite H1, H2.
-        apply IHp. intros b Hb. apply Hpre. right. exact Hb. }
-      destruct Hcq as [Hcq Hcd].
-      unfold count_act in *. rewrite !filter_app, !app_length.
-      repeat split.
-      - rewrite Hcq. exact Hq.
-      - clear -Hpre Hl. destruct Hl as [Hl _]. induction pre as [|a pre IHp]; [exact Hl|].
-        destruct (Hpre a (or_introl eq_refl)) as [H1 H2].
-        cbn [app]. destruct a; try discriminate; cbn [quit_before_disc]; apply IHp; intros b Hb; apply Hpre; right; exact Hb.
-      - clear -Hpre Hl. destruct Hl as [_ Hl]. induction pre as [|a pre IHp]; [exact Hl|].
-        destruct (Hpre a (or_introl eq_refl)) as [H1 H2].
-        cbn [app]. destruct a; try discriminate; cbn [quiet_after_quit]; apply IHp; intros b Hb; apply Hpre; right; exact Hb.
-      - rewrite Hcd. exact Hd.
-      - cbn [length skipn filter]. rewrite He, Herr. destruct (is_serr it); cbn [length]; lia.
-      - apply in_or_app. right. rewrite <- Hcnt. exact Hin. }
-    destruct i.
-    + (* stanza *)
-      apply (Hstep (inb + 1) nw [ARouteAsync (IStanza k id)] (IStanza k id)); try reflexivity.
-      * intros a [<-|[]]; split; reflexivity.
-      * unfold count_stanzas. cbn [filter is_stanza length]. lia.
-    + (* r *)
-      destruct (match wf with Some k => Nat.eqb k (S nw) | None => false end) eqn:Ew.
-      * apply (Hstep inb (S nw) [AWriteFail inb; ARouteAsync ISmR] ISmR); try reflexivity.
-        -- intros a [<-|[<-|[]]]; split; reflexivity.
-        -- cbn [crecv]. rewrite Ew. reflexivity.
-      * apply (Hstep inb (S nw) [AWrite inb; ARouteAsync ISmR] ISmR); try reflexivity.
-        -- intros a [<-|[<-|[]]]; split; reflexivity.
-        -- cbn [crecv]. rewrite Ew. reflexivity.
-    + (* a *)
-      apply (Hstep inb nw [ARouteAsync (ISmA h)] (ISmA h)); try reflexivity.
-      intros a [<-|[]]; split; reflexivity.
-    + (* other nonza *)
-      apply (Hstep inb nw [ARouteAsync (INonza tag)] (INonza tag)); try reflexivity.
-      intros a [<-|[]]; split; reflexivity.
-    + (* stream error *)
-      apply (Hstep inb nw [ARouteSync (IStreamError tag); AEvStreamError; AErrCall; ADisconnectCall] (IStreamError tag)); try reflexivity.
-      intros a [<-|[<-|[<-|[<-|[]]]]]; split; reflexivity.
-    + (* close *)
-      cbn -[N.add]. repeat split; try reflexivity. right; right; left. f_equal. lia.
-    + (* bad *)
-      cbn -[N.add]. repeat split; try reflexivity. right; right; left. f_equal. lia.
+  cbn zeta. destruct (crecv_from_counts items false inb nw wf) as (Hq & Hd & He).
+  split; [exact Hq|]. split; [apply crecv_quit_first|]. split; [exact Hd|]. split; [exact He|].
+  destruct (crecv_from_ends_with_disc items false inb nw wf) as (pre & E).
+  unfold crecv. rewrite E. apply in_or_app. right. left. reflexivity.
+Qed.
+
+(* for the owner of the session model (C09): the Inbound value a Disconnected event of this loop carries is
+   the count the loop started with plus the number of stanzas it processed - whichever event one looks
+   at; and there is exactly one *)
+Lemma crecv_disconnected_inbound items inb nw wf n :
+  In (AEvDisconnected n) (crecv inb nw wf items) -> n = inb + count_stanzas (processed items).
+Proof. apply crecv_from_disc_value. Qed.
+Lemma crecv_disconnected_once items inb nw wf :
+  In (AEvDisconnected (inb + count_stanzas (processed items))) (crecv inb nw wf items) /\
+  count_act is_disc (crecv inb nw wf items) = 1%nat.
+Proof. destruct (crecv_loss items inb nw wf) as (_ & _ & Hd & _ & Hin). split; assumption. Qed.
+
+(* ---- the three endings, in terms of the input ---- *)
+Lemma how_ended_spec items :
+  match how_ended items with
+  | EndCut => processed items = items
+  | EndRejected => exists r, items = processed items ++ IBad :: r
+  | EndClosed => exists r, items = processed items ++ IClose :: r
+  end.
+Proof.
+  induction items as [|i items IH]; [reflexivity|].
+  assert (Hgo : stops i = false -> how_ended (i :: items) = how_ended items ->
+    match how_ended (i :: items) with
+    | EndCut => processed (i :: items) = i :: items
+    | EndRejected => exists r, i :: items = processed (i :: items) ++ IBad :: r
+    | EndClosed => exists r, i :: items = processed (i :: items) ++ IClose :: r
+    end).
+  { intros H1 H3. rewrite H3. cbn [processed]. rewrite H1. destruct (how_ended items).
+    - rewrite IH. reflexivity.
+    - destruct IH as (r & E). exists r. cbn [app]. rewrite <- E. reflexivity.
+    - destruct IH as (r & E). exists r. cbn [app]. rewrite <- E. reflexivity. }
+  destruct i; try (apply Hgo; reflexivity).
+  - exists items. reflexivity.
+  - exists items. reflexivity.
+Qed.
+Lemma reaches_end_cut items : reaches_end items = true -> how_ended items = EndCut.
+Proof.
+  unfold reaches_end. induction items as [|i items IH]; intros H; [reflexivity|].
+  cbn [forallb] in H. apply andb_true_iff in H as [Hi H]. destruct i; try discriminate; cbn [how_ended]; auto.
+Qed.
+
+(* ---- C12 in one piece each ---- *)
+Lemma crecv_reported_once items inb nw wf :
+  let tr := crecv inb nw wf items in
+  let p := processed items in
+  count_act is_quit tr = 1%nat /\
+  (quit_before_disc tr = true /\ quit_before_callbacks tr = true) /\
+  count_act is_disc tr = 1%nat /\
+  (exists pre, tr = pre ++ [AEvDisconnected (inb + count_stanzas p)]) /\
+  (forall n, In (AEvDisconnected n) tr -> n = inb + count_stanzas p) /\
+  count_act is_err tr = ((if ends_by_close items then 0 else 1) + length (filter is_serr p))%nat /\
+  routed tr = p.
+Proof.
+  cbn zeta. destruct (crecv_loss items inb nw wf) as (Hq & Hb & Hd & He & _). cbn zeta in *.
+  split; [exact Hq|]. split; [exact Hb|]. split; [exact Hd|].
+  split; [apply crecv_from_ends_with_disc|]. split; [intros n; apply crecv_from_disc_value|].
+  split; [exact He|apply crecv_routed].
+Qed.
+
+(* the loop comes to a stream error whose handler replaces the connection *)
+Lemma crecv_handed_over t items inb nw wf :
+  reaches_end items = true ->
+  let tr := crecv_handover t inb nw wf items in
+  count_act is_quit tr = 1%nat /\ quit_before_callbacks tr = true /\
+  count_act is_disc tr = 0%nat /\
+  count_act is_err tr = (1 + length (filter is_serr items))%nat /\
+  routed tr = items ++ [IStreamError t] /\
+  routed_async tr = filter (fun i => negb (is_serr i)) items /\
+  attempted tr = expected_answers inb items /\
+  exists pre, tr = pre ++ [ARouteSync (IStreamError t); AEvStreamError; AErrCall] /\
+              count_act is_callback pre = (3 * length (filter is_serr items))%nat.
+Proof.
+  intros Hre. cbn zeta. pose proof (processed_all items Hre) as Hp. unfold crecv_handover.
+  destruct (crecv_k_counts (hand_over t) 0 1 items false inb nw wf) as (Hq & Hd & He);
+    try (intros s n; destruct s; reflexivity).
+  rewrite Hre, Hp in *.
+  split; [exact Hq|]. split.
+  { apply crecv_k_quit_first. intros n. split; reflexivity. }
+  split; [exact Hd|]. split; [exact He|]. split.
+  { fold (crecv_handover t inb nw wf items). rewrite crecv_handover_routed, Hre, Hp. reflexivity. }
+  split.
+  { rewrite <- Hp at 2. apply (crecv_k_async (hand_over t)); intros s n; destruct s; reflexivity. }
+  split.
+  { rewrite <- Hp at 2. apply crecv_k_answers. intros s n; destruct s; reflexivity. }
+  clear -Hre. generalize false. revert inb nw. unfold reaches_end in Hre.
+  induction items as [|i items IH]; intros inb nw stopped.
+  - exists (if stopped then [] else [AQuit]). split; [reflexivity|destruct stopped; reflexivity].
+  - cbn [forallb] in Hre. apply andb_true_iff in Hre as [Hi Hre].
+    destruct i; try discriminate; cbn [crecv_k filter is_serr].
+    + destruct (IH Hre (inb + 1) nw stopped) as (pre & -> & Hc). exists (ARouteAsync (IStanza k id) :: pre).
+      split; [reflexivity|]. rewrite count_act_cons. exact Hc.
+    + destruct (IH Hre inb (S nw) stopped) as (pre & -> & Hc).
+      exists ((if wf (S nw) then AWriteFail inb else AWrite inb) :: ARouteAsync ISmR :: pre).
+      split; [reflexivity|]. rewrite !count_act_cons. destruct (wf (S nw)); exact Hc.
+    + destruct (IH Hre inb nw stopped) as (pre & -> & Hc). exists (ARouteAsync (ISmA h) :: pre).
+      split; [reflexivity|]. rewrite count_act_cons. exact Hc.
+    + destruct (IH Hre inb nw stopped) as (pre & -> & Hc). exists (ARouteAsync (INonza tag) :: pre).
+      split; [reflexivity|]. rewrite count_act_cons. exact Hc.
+    + destruct (IH Hre inb nw true) as (pre & -> & Hc).
+      exists ((if stopped then [] else [AQuit]) ++
+              ARouteSync (IStreamError tag) :: AEvStreamError :: AErrCall :: ADisconnectCall :: pre).
+      split; [rewrite <- app_assoc; reflexivity|].
+      rewrite count_act_app, !count_act_cons, Hc. cbn [is_callback length].
+      destruct stopped; cbn; lia.
+Qed.
+(* ... which it does not when something before it ends the loop: then the trace is that of the loss *)
+Lemma crecv_k_fin_irrelevant fin1 fin2 items : forall stopped inb nw wf,
+  reaches_end items = false ->
+  crecv_k fin1 stopped inb nw wf items = crecv_k fin2 stopped inb nw wf items.
+Proof.
+  unfold reaches_end. induction items as [|i items IH]; intros stopped inb nw wf H; [discriminate|].
+  cbn [forallb] in H.
+  destruct i; cbn [crecv_k stops negb andb] in *; try reflexivity; rewrite (IH _ _ _ _ H); reflexivity.
+Qed.
+Lemma crecv_handover_not_reached t items inb nw wf :
+  reaches_end items = false -> crecv_handover t inb nw wf items = crecv inb nw wf items.
+Proof. apply crecv_k_fin_irrelevant. Qed.
+
+Lemma crecv_cut_anywhere items inb nw wf :
+  reaches_end items = true ->
+  let tr := crecv inb nw wf items in
+  routed tr = items /\
+  count_act is_quit tr = 1%nat /\ count_act is_disc tr = 1%nat /\
+  count_act is_err tr = (1 + length (filter is_serr items))%nat /\
+  (exists pre, tr = pre ++ [AEvDisconnected (inb + count_stanzas items)]) /\
+  (filter is_serr items = [] -> count_act is_err tr = 1%nat /\ quiet_after_quit tr = true).
+Proof.
+  intros H. cbn zeta. pose proof (processed_all items H) as Hp. pose proof (reaches_end_cut items H) as Hc.
+  destruct (crecv_reported_once items inb nw wf) as (Hq & _ & Hd & Hl & _ & He & Hr). cbn zeta in *.
+  unfold ends_by_close in He. rewrite Hc, Hp in *.
+  split; [exact Hr|]. split; [exact Hq|]. split; [exact Hd|]. split; [exact He|]. split; [exact Hl|].
+  intros Hs. rewrite Hs in He. split; [exact He|].
+  apply crecv_quiet_without_stream_error. rewrite Hp. exact Hs.
 Qed.
 
 (* ---- component ---- *)
-Lemma precv_routed items : routed (precv items) = pprocessed items.
+Lemma precv_routed items : routed (precv items) = processed items.
 Proof.
   induction items as [|i items IH]; [reflexivity|].
-  destruct i; cbn [precv pprocessed]; try reflexivity;
+  destruct i; cbn [precv processed stops]; try reflexivity;
     cbn [routed flat_map app]; fold (routed (precv items)); rewrite IH; reflexivity.
 Qed.
 
 Definition all_sync (tr : list action) : bool :=
   forallb (fun a => match a with ARouteAsync _ => false | _ => true end) tr.
 Lemma precv_sync items : all_sync (precv items) = true.
+Proof. induction items as [|i items IH]; [reflexivity|]. destruct i; cbn; try exact IH; reflexivity. Qed.
+Lemma precv_no_answers items : attempted (precv items) = [].
 Proof. induction items as [|i items IH]; [reflexivity|]. destruct i; cbn; try exact IH; reflexivity. Qed.
